@@ -386,7 +386,7 @@ theorem policyCell_spec {fsig : String → Option Nat} {sl : List Cell}
     {shares : List ((Date × Date) × List ((Date × Date) × Rat))} {py : Date × Date} {ev : Date}
     {oc : Option Cell} (hu : ∀ c ∈ sl, ∀ kv ∈ c.values, sgIn kv.2 = fsig kv.1)
     (h : policyCell sl shares py ev = .ok oc) :
-    (∀ o ∈ oc, o.ev = ev ∧ ∃ c ∈ sl, o.md = c.md) ∧
+    (∀ o ∈ oc, o.ev = ev ∧ o.kind = .cumulative ∧ ∃ c ∈ sl, o.md = c.md) ∧
     ∀ g i, total oc.toList g i =
       ((sl.filter (·.ev == ev)).map fun c => cellField c g i * (shareOf shares py c).getD 0).sum := by
   unfold policyCell at h
@@ -430,7 +430,7 @@ theorem policyCell_spec {fsig : String → Option Nat} {sl : List Cell}
               refine ⟨?_, fun g i => ?_⟩
               · intro o ho
                 simp at ho; subst ho
-                exact ⟨rfl, last, haq last (List.mem_of_getLast? hlast), rfl⟩
+                exact ⟨rfl, rfl, last, haq last (List.mem_of_getLast? hlast), rfl⟩
               · rw [← hsum g i, ← dsum_eq_lcomp hk]
                 simp [total, cellField]
           · rename_i hlast
@@ -631,7 +631,7 @@ theorem policyYearCells_spec {fsig : String → Option Nat} {sl tri : List Cell}
     (hcov : ∀ pys, policyYearsCovered sl origin = .ok pys →
       ∀ row ∈ aqShares (periods sl) pys len cont, (row.2.map (·.2)).sum = 1)
     (h : aqToPolicyYearCells sl len origin cont = .ok tri) :
-    (∀ o ∈ tri, ∃ c ∈ sl, o.md = c.md) ∧
+    (∀ o ∈ tri, o.kind = .cumulative ∧ ∃ c ∈ sl, o.md = c.md) ∧
     ∀ d g i, total (tri.filter (·.ev == d)) g i = total (sl.filter (·.ev == d)) g i := by
   unfold aqToPolicyYearCells at h
   cases h1 : Triangle.rightEdge sl with
@@ -767,7 +767,7 @@ theorem policyYearSlice_spec {fsig : String → Option Nat} {sl r : List Cell} {
     rw [total_perm (hperm.filter _), List.filter_map,
       total_map_values _ (fun c : Cell => { c with md := c.md.edit (.riskBasis (some "Policy")) }) (fun _ => rfl)]
     have htri : ∀ c ∈ tri, c.md = m := fun c hc' => by
-      obtain ⟨c0, hc0, e⟩ := hmds c hc'; rw [e, hmd c0 hc0]
+      obtain ⟨c0, hc0, e⟩ := (hmds c hc').2; rw [e, hmd c0 hc0]
     have e1 : tri.filter ((fun o : Cell => o.md == m' && o.ev == d) ∘ fun c => { c with md := c.md.edit (.riskBasis (some "Policy")) })
         = tri.filter fun c => (toPolicy m == m') && c.ev == d := by
       apply List.filter_congr
